@@ -208,6 +208,8 @@ def random_value(rng, tok, vocab, zipf, max_tokens):
         if kind == 'alpha' and r < 0.13:
             return rng.choice(['123', '42 7', '...'])           # nothing alphabetic
         n = rng.randint(1, max_tokens)
+        if rng.random() < 0.015:
+            n = rng.randint(40, 120)            # a very long value
         toks = []
         for _ in range(n):
             if zipf:
@@ -346,13 +348,16 @@ def random_out_attrs(rng, spec, key, attr):
 def random_join_call(rng, api=None, tok=None, n_jobs_pool=(1, 1, 1, 2, 3), **tkw):
     api = api or rng.choice(['jaccard_join', 'cosine_join', 'dice_join',
                              'overlap_coefficient_join', 'overlap_join'])
+    many_jobs = rng.random() < 0.05
+    if many_jobs:
+        tkw = dict(tkw, max_rows=rng.choice([24, 40]))       # more rows than CPUs, more jobs than CPUs
     if api == 'edit_distance_join':
         tok = tok or random_tokenizer(rng, qgram_only=True)
     L, R, tok = random_table_pair(rng, tok=tok, **tkw)
     call = {'api': api, 'ltable': L, 'rtable': R, 'l_key': 'lid', 'r_key': 'rid',
             'l_attr': 'lattr', 'r_attr': 'rattr', 'tok': tok}
     if api == 'overlap_join':
-        call['threshold'] = rng.choice([1, 1, 2, 2, 3, 4, 5])
+        call['threshold'] = rng.choice([1, 1, 2, 2, 3, 4, 5, 1.5, 2.5, 2.0])
         call['comp_op'] = rng.choice(['>=', '>=', '>', '='])
     elif api == 'edit_distance_join':
         call['threshold'] = rng.choice([0, 1, 1, 2, 2, 3, 4])
@@ -365,12 +370,18 @@ def random_join_call(rng, api=None, tok=None, n_jobs_pool=(1, 1, 1, 2, 3), **tkw
     call['l_out_attrs'] = random_out_attrs(rng, L, 'lid', 'lattr')
     call['r_out_attrs'] = random_out_attrs(rng, R, 'rid', 'rattr')
     if rng.random() < 0.3:
-        call['l_out_prefix'] = rng.choice(['left_', 'L.', 'l_'])
-        call['r_out_prefix'] = rng.choice(['right_', 'R.', 'r_'])
+        call['l_out_prefix'] = rng.choice(['left_', 'L.', 'l_', '', 'ltable.'])
+        call['r_out_prefix'] = rng.choice(['right_', 'R.', 'r_', 'rtable.'])
     call['out_sim_score'] = rng.random() < 0.75
     call['n_jobs'] = rng.choice(list(n_jobs_pool))
-    if rng.random() < 0.05:
+    if rng.random() < 0.06:
+        call['n_jobs'] = rng.choice([-1, -3, 20, 0])
+    if many_jobs:
+        call['n_jobs'] = rng.choice([17, 20, 33, 64])
+    if rng.random() < 0.12:
         call['show_progress'] = True
+    if rng.random() < 0.06:
+        call['threshold_np'] = True       # hand the threshold over as a numpy scalar
     if call['threshold'] == 1.0 and rng.random() < 0.5:
         call['threshold'] = 1          # an int is a valid threshold too
     return call
@@ -406,6 +417,14 @@ def random_candset(rng, L, R, l_key, r_key, size=None, with_missing_ok=True, ext
         cols.append('note')
         data['note'] = ['n%d' % rng.randint(0, 5) for _ in range(n)]
         dtypes['note'] = 'object'
+    if extra_cols and n:
+        # the key columns are named, not positioned: right key before left key, a column in between
+        r = rng.random()
+        if r < 0.12:
+            cols = [cols[0], cols[2], cols[1]] + cols[3:]
+        elif r < 0.2:
+            cols = [cols[0], cols[1], 'mid', cols[2]] + cols[3:]
+            data['mid'] = [rng.randint(0, 9) for _ in range(n)]
     ik = index_kind or rng.choice(['range', 'shuffled', 'str', 'offset', 'dup', 'dup', 'const'])
     if ik == 'range' or n == 0:
         index = None
@@ -422,10 +441,10 @@ def random_candset(rng, L, R, l_key, r_key, size=None, with_missing_ok=True, ext
     else:
         index = ['c%d' % i for i in rng.sample(range(10 * n + 1), n)]
     if n == 0:
-        dtypes.update({'_id': 'int64', cols[1]: 'object', cols[2]: 'object'})
+        dtypes.update({'_id': 'int64', 'l_' + l_key: 'object', 'r_' + r_key: 'object'})
     else:
         # key columns whose dtype differs from the tables' key dtype while the values match
-        for c, keys in ((cols[1], lk), (cols[2], rk)):
+        for c, keys in (('l_' + l_key, lk), ('r_' + r_key, rk)):
             r = rng.random()
             if all(isinstance(k, int) and not isinstance(k, bool) and abs(k) < 2 ** 31 for k in keys):
                 if r < 0.2:
